@@ -46,6 +46,9 @@ func checkC02(c *Ctx) {
 	simx := &SketchGen{Init: plainExact(3, "exact"), Tokens: append(append([]int{}, tokBins2...), 0, 2), Weights: []int{1, 4, 8},
 		Ops: []string{"Add", "AddW", "Merge", "Clear"}, Q: 4, QDen: 8, Depth: c.pick(10, 16), Simulate: true, Num: c.pick(500, 10000)}
 	c.runSketchGen(simx, mx, c.pick(6, 12), "simulated merge trees, exact-statistics variant")
+	// direction B: inputs of thousands of values split over 3 sketches and merged; quantiles of the merged sketches
+	// validated by TLC against the union bag (Trace_Sketch)
+	c.runSketchTraces(c.pick(4, 40), false, c.pick(800, 2500), "split inputs merged, q at every k/(n-1)")
 }
 
 // C12 - summary queries are mutually coherent and alpha-accurate
@@ -134,7 +137,7 @@ func checkC10(c *Ctx) {
 	cmInit := []SketchInit{{"exact", 1, ex0, ex0}, {"exact", 1, ex0, ex0}, {"exact", 2, ex0, ex0}}
 	mxc := &SketchMatrix{Mappings: [][]MappingSpec{{{"log", 0.01}, {"cubic", 0.02}}, {{"linear", 0.05}, {"log", 0.01}}, {{"cubic", 0.01}, {"cubic", 0.03}}}, Reals: exactRealKinds,
 		Modes: []string{"every"}, Aspects: map[string]bool{"bins": true, "exact": true, "cm-stats": true, "pure": true}, MidKeysOnly: true}
-	cmTree := &SketchGen{Init: cmInit[:2], Tokens: []int{11, -12}, Weights: []int{6}, Ops: []string{"AddW", "ChangeMap", "Clear"}, Q: 4, QDen: 8, Depth: c.pick(3, 4)}
+	cmTree := &SketchGen{Init: cmInit[:2], Tokens: []int{11, -12}, Weights: []int{6}, Ops: []string{"AddW", "ChangeMap", "Clear"}, Q: 4, QDen: 8, Depth: 3}
 	c.runSketchGen(cmTree, mxc, c.pick(4, 8), "exhaustive tree with unit/mapping changes")
 	cmSim := &SketchGen{Init: cmInit, Tokens: append(append([]int{}, tokBins3...), 0, 2), Weights: []int{0, 2, 4, 8}, Factors: [][2]int{{1, 2}, {2, 1}},
 		Ops: []string{"Add", "AddW", "Merge", "Copy", "Clear", "Reweight", "ChangeMap", "EncDec"}, Q: 4, QDen: 8, Depth: c.pick(10, 20), Simulate: true, Num: c.pick(800, 20000)}
@@ -160,11 +163,11 @@ func checkC14(c *Ctx) {
 	mx := &SketchMatrix{Mappings: mappingMatrix([]float64{0.01, 0.2}, nil), Reals: exactRealKinds, Modes: []string{"every"}, Aspects: map[string]bool{"pure": true}}
 	tree := &SketchGen{Init: plainExact(2, "plain"), Tokens: []int{10, 13, -11}, Weights: []int{132}, Factors: [][2]int{{1, 2}},
 		Ops: []string{"Add", "AddW", "Merge", "Copy", "Clear", "Reweight", "EncDec", "Proto", "Read"}, Q: 4, QDen: 8, Depth: c.pick(3, 4)}
-	c.runSketchGen(tree, mx, c.pick(6, 12), "exhaustive tree with reads and copies")
+	c.runSketchGen(tree, mx, c.pick(6, 4), "exhaustive tree with reads and copies")
 	// deep narrow tree: clear / copy / re-fill sequences on both sides of a copy (memory reuse across Clear and Copy)
 	mxn := &SketchMatrix{Mappings: [][]MappingSpec{{{"log", 0.01}}, {{"cubic", 0.05}}}, Reals: exactRealKinds, Modes: []string{"every"}, Aspects: map[string]bool{"pure": true}}
 	deep := &SketchGen{Init: plainExact(2, "plain"), Tokens: []int{10, 13}, Weights: []int{132}, Ops: []string{"AddW", "Clear", "Copy", "Read"}, Q: 4, QDen: 8, Depth: c.pick(5, 6)}
-	c.runSketchGen(deep, mxn, c.pick(3, 6), "deep narrow tree: add/clear/copy/read")
+	c.runSketchGen(deep, mxn, c.pick(3, 2), "deep narrow tree: add/clear/copy/read")
 	for _, variant := range []string{"plain", "exact"} {
 		for _, init := range mixedInits(variant) {
 			ops := allSketchOps
